@@ -13,7 +13,8 @@ from props.C16 import default_reply
 from props.actor_steps import StepModify, StepExpire, StepAck, StepPull
 
 OUTSIDE = ['more than one iteration of push_loop::run at a time (C14.f decides one iteration from an arbitrary registry / manager state); pages of more than two deliveries in pull_and_dispatch_messages (C14.e)',
-           'reqwest/hyper; what "no answer within the deadline" does to the still-pending HTTP future; that pushing stops on deletion']
+           'reqwest/hyper; what "no answer within the deadline" does to the still-pending HTTP future',
+           'deletion while a round is suspended at more than one place at once (C14.g: one outstanding leaf future when the deletion arrives)']
 ASSUMPTIONS = ['the HTTP exchange is a leaf future with an arbitrary outcome: any status 100..=999 or a transport error']
 
 
